@@ -92,7 +92,7 @@ def _failing_lemma(stdout, txt):
 
 def extracted_certs(drv, caps, construction=None):
     """Run the extracted checker. Returns {id: [dfa_ok, sim_ok, exact_ok, wf_graph, ...]}.
-    construction: optional dict filled with {id: [5 side conditions of build_side, gsim_ok (build d) g]}
+    construction: optional dict filled with {id: [5 side conditions of build_side, gsim_ok (build d) g, wf+closed (build d), gsim_ok (dedup (build d)) g, same size and one-to-one]}
     (the Coq model of Graph::new run on the captured raw DFA and compared with the captured graph)."""
     jobs = []
     for i, c in enumerate(caps):
